@@ -79,14 +79,14 @@ def count_full_scenario(r, it, modes=(3,)):
         if ep != "A" or f["kind"] != "D":
             return None
         full = len(f["dgs"]) >= 127
-        hit = state["prev_full"] and state["dropped"] < 2 and not full
+        hit = state["prev_full"] and state["dropped"] < 3
         state["prev_full"] = full
         if hit:
             state["dropped"] += 1
             return []
         return None
     sim.fate_fn = fate
-    n = r.pick([128, 129, 200, 255, 300, 400])
+    n = r.pick([200, 255, 300, 400, 600])
     ln = r.pick([1, 2, 2, 3])
     for j in range(n):
         sim.send("A", r.below(3), r.pick(list(modes)), ln)
